@@ -3,7 +3,7 @@ from vlib import sesscheck
 
 ID = 'C15'
 LEVEL = 'exploration'
-RULE = "Same program space as C09 with deletions weighted up over diagrams with every required/optional x cascade combination. Oracle: the reference store's cascade semantics decide whether a delete / collection removal must succeed or be refused (ConstraintError) and what it removes; after every commit a raw scan finds no foreign-key value or link row without a parent row and the tables equal the reference store. Non-trivial = a program with a delete that cascaded, cleared a reference or was refused; distinct by program hash."
+RULE = "Same program space as C09 with deletions weighted up over diagrams with every required/optional x cascade combination. Oracle: the reference store's cascade semantics decide whether a delete / collection removal must succeed or be refused (ConstraintError) and what it removes; after every commit a raw scan finds no foreign-key value or link row without a parent row and the tables equal the reference store. Non-trivial = a program with a delete that cascaded, cleared a reference or was refused; distinct by program hash. A share of the programs (one third; one half for C11/C13/C15) comes from the hub family: every relationship starts at one entity, with cascading/unlinking relationships declared around a refusing one, populated, and then aimed operations (pending updates of children, pending removals on the hub collections, new children with explicit keys) precede the delete of the hub, so that deletes refused after part of their cascade are common."
 ASSUMPTIONS = ['live SQLite (in-memory) with foreign keys enforced immediately',
                'reference store vlib/refstore.py written from the documented relationship/cascade/key semantics (DESIGN.md section 7a)',
                'table and column names are taken from the mapping metadata (names only)']
